@@ -613,6 +613,11 @@ def _decision_inputs():
     both("cfg_same_everywhere", "y", "y", "y")                       # combine of equal cfgs is that cfg
     both("cfg_feature_spacing", 'feature="a"', 'feature = "a"', 'feature = "a"')
     both("cfg_nested_conj", "all(all(x, y), z)", "z", "all(x, y)")
+    # a file that starts with a UTF-8 byte order mark: whatever each parser makes of it, the macro hands the library the
+    # bytes that are in the file (seed C20-10 stripped the mark in create_device! only); no verdict is written down here,
+    # the callers only have to agree
+    base = out["cfg_conj_other_order"]
+    out["bom_prefixed"] = {syn: "\ufeff" + text for syn, text in base.items()}
     return out
 
 
